@@ -14,6 +14,7 @@ ID = "C02"
 GO_PKG = "./api/handler"
 RPC_PKG = "./rpc/internal/serverinterceptors"
 E2E_PKG = "./api"
+RSRV_PKG = "./rpc"     # real started rpc servers
 REST_RUN = "^TestVerifDriverC02$"   # api/handler also hosts another property's TestVerifDriver
 TH = "api/handler/timeouthandler.go"
 GEN_SPEC = {"items": [
@@ -39,6 +40,17 @@ GEN_SPEC = {"items": [
     # rpc/internal/server.go Start: builtin list first, then the ones added by rpc/server.go setupInterceptors
     {"kind": "chain", "file": "rpc/internal/server.go", "func": "server.Start", "call": "append", "as": "rpc_append"},
     {"kind": "calls", "file": "rpc/server.go", "func": "setupInterceptors", "as": "sk_rpc_setup"},
+    # which deadline applies / which log handler; pass-through writers around the guards; assembly of the rpc chain
+    {"kind": "calls", "file": "api/engine.go", "func": "engine.checkedTimeout", "as": "sk_checkedtimeout"},
+    {"kind": "calls", "file": "api/engine.go", "func": "engine.getLogHandler", "as": "sk_getlog"},
+    {"kind": "calls", "file": "api/handler/loghandler.go", "func": "detailLoggedResponseWriter.Write", "as": "sk_dlw_write"},
+    {"kind": "calls", "file": "api/handler/loghandler.go", "func": "detailLoggedResponseWriter.WriteHeader", "as": "sk_dlw_wh"},
+    {"kind": "calls", "file": "api/handler/loghandler.go", "func": "loggedResponseWriter.Write", "as": "sk_lw_write"},
+    {"kind": "calls", "file": "api/handler/loghandler.go", "func": "loggedResponseWriter.WriteHeader", "as": "sk_lw_wh"},
+    {"kind": "calls", "file": "api/internal/response/withcoderesponsewriter.go", "func": "WithCodeResponseWriter.Write", "as": "sk_wc_write"},
+    {"kind": "calls", "file": "api/internal/response/withcoderesponsewriter.go", "func": "WithCodeResponseWriter.WriteHeader", "as": "sk_wc_wh"},
+    {"kind": "calls", "file": "rpc/internal/server.go", "func": "server.Start", "as": "sk_rpc_start"},
+    {"kind": "calls", "file": "rpc/internal/baseserver.go", "func": "baseServer.AddUnaryInterceptors", "as": "sk_rpc_addunary"},
 ]}
 
 
@@ -104,7 +116,7 @@ extra_gen()   # runs when vcheck loads the module, i.e. before the proof build o
 QUICK_N = 900
 THOROUGH_N = 6000
 SEARCH_N = 420
-SHARD = 150
+SHARD = 64
 DRIVER_TIMEOUT = 900
 RULE = ("50% REST timeout cases: handler scripts of 0-6 actions (Set/Add/Del header over 3 keys, WriteHeader over 6 valid and "
         "5 invalid codes, Write of 0-3 byte chunks, panic with a value of 11 kinds: string, error, wrapped error, runtime errors raised by real "
@@ -119,7 +131,11 @@ RULE = ("50% REST timeout cases: handler scripts of 0-6 actions (Set/Add/Del hea
         "requests (calls) with their own scripts through ONE Timeout(+Recover) chain instance (ONE UnaryTimeoutInterceptor under "
         "Crash), random product schedule of start / one-more-action / deadline ops with rendezvous (a started request is parked "
         "inside the instance), incl. requests that start after another one was abandoned at its deadline with its handler still "
-        "parked; every wait bounded (blocked => violation); plus a fixed matrix: every panic-value kind x {nothing committed, header set, "
+        "parked; every wait bounded (blocked => violation); plus configuration cases through the real engine / a real started rpc server: "
+        "(Config.Timeout in {0, 80 ms, 60 s}) x (route WithTimeout in {absent, 80 ms, 60 s}) with a handler parked 250 ms, "
+        "Config.Verbose on/off x bodies of 3 B, 32 KiB-1/+0/+1, 48 KiB, 200 KiB in one Write / accumulated / 140-150 chunks of 500 B (thorough: 420 chunks, 210 KB), and "
+        "rpc.NewServer(Timeout in {0, 100 ms, 60 s}, CpuThreshold in {0, 1000}) + Start with a context-ignoring handler parked "
+        "300 ms; plus a fixed matrix: every panic-value kind x {nothing committed, header set, "
         "status committed, timeout=0 bypass} through Timeout+Recover and x {timeout interceptor in between, Timeout<=0} through "
         "Crash (thorough/search: also through engine.bindRoute's chain on loopback). thorough adds 60 such cases against engine.bindRoute's real chain "
         "(one route; overlap without deadline, or request 0 answered by the 1 s route timer while parked and the others "
@@ -405,6 +421,86 @@ def value_matrix(e2e):
     return out
 
 
+SMALL_MS, LARGE_MS, HOLD_MS = 80, 60000, 250      # route/server timeouts of the e2ec cases, and how long an overrunning handler is parked
+RSMALL_MS, RHOLD_MS = 100, 300
+
+
+def big_writes(rng, shape, total):
+    """a body of `total` bytes: in one Write, or accumulated over Writes of a few KiB, or over many small chunks"""
+    if shape == "one":
+        return [{"a": "w", "rep": {"b": 97 + total % 26, "n": total}}]
+    out, left, i = [], total, 0
+    while left > 0:
+        n = min(left, 500 if shape == "many" else rng.choice([1000, 4096, 8192, 8193]))
+        out.append({"a": "w", "rep": {"b": 97 + i % 26, "n": n}})
+        left -= n
+        i += 1
+    return out
+
+
+def gen_e2ec(rng, g=None, r=None, verbose=None, body=None, hold=None):
+    """engine.bindRoute's chain for a combination of server-wide timeout, route timeout and log handler"""
+    g = rng.choice([0, SMALL_MS, LARGE_MS]) if g is None else g
+    r = rng.choice([0, SMALL_MS, LARGE_MS]) if r is None else r
+    verbose = (rng.random() < 0.5) if verbose is None else verbose
+    acts = []
+    if rng.random() < 0.6:
+        acts.append({"a": "set", "k": rng.randrange(3), "v": rng.randrange(4)})
+    if rng.random() < 0.5:
+        acts.append({"a": "wh", "c": rng.choice([200, 201, 404, 500, 503])})
+    if body is None:
+        shape = rng.choice(["one", "acc", "many"])
+        body = (shape, rng.choice([3, 1024, 32767, 32768, 32769, 49152, 70000 if shape == "many" else 204800]))
+    acts += big_writes(rng, body[0], body[1])
+    if rng.random() < 0.15:
+        acts.append({"a": "panic", "pv": gen_pv(rng, True)})
+    if rng.random() < 0.3:
+        acts.append({"a": "w", "b": rng.choice(CHUNKS)})
+    if hold is None:
+        hold = HOLD_MS if rng.random() < 0.55 else 0
+    return {"kind": "e2ec", "gtimeout_ms": g, "rtimeout_ms": r, "verbose": verbose, "hold_ms": hold,
+            "k": rng.randint(0, len(acts)) if hold else 0, "acts": acts}
+
+
+def config_matrix(rng):
+    out = []
+    for g in (0, SMALL_MS, LARGE_MS):          # every (server-wide, route) pair with a handler that overruns the small deadline
+        for r in (0, SMALL_MS, LARGE_MS):
+            out.append(gen_e2ec(rng, g=g, r=r, body=("one", 3), hold=HOLD_MS))
+            if 0 < (r or g) < HOLD_MS:      # the small deadline applies: once more with a body that must not leak
+                out.append(gen_e2ec(rng, g=g, r=r, body=("acc", 32769), hold=HOLD_MS))
+    for verbose in (False, True):              # body exactness around 32 KiB and far above, one Write and accumulated
+        for size in (3, 32767, 32768, 32769, 49152, 204800):
+            out.append(gen_e2ec(rng, g=LARGE_MS, r=0, verbose=verbose, body=(rng.choice(["one", "acc"]), size), hold=0))
+        out.append(gen_e2ec(rng, g=0, r=0, verbose=verbose, body=("many", 70000), hold=0))
+        out.append(gen_e2ec(rng, g=LARGE_MS, r=0, verbose=verbose, body=("many", 75000), hold=0))
+    return out
+
+
+def gen_rsrv(rng, timeout=None, hold=None):
+    """a unary call through a real started rpc server (rpc.NewServer + Start on loopback)"""
+    timeout = rng.choice([0, RSMALL_MS, RSMALL_MS, LARGE_MS]) if timeout is None else timeout
+    if rng.random() < 0.25:
+        h = {"t": "panic", "pv": gen_pv(rng, True)}
+    else:
+        code = rng.choice([0, 0, 0, 3, 5, 13, 14])
+        h = {"t": "ret", "resp": rng.choice([0, 3, 7]) if code == 0 or rng.random() < 0.5 else None, "code": code}
+    if hold is None:
+        hold = RHOLD_MS if rng.random() < 0.6 else 0
+    return {"kind": "rsrv", "timeout_ms": timeout, "cpu": rng.choice([0, 1000]), "h": h, "hold_ms": hold}
+
+
+def rsrv_matrix(rng):
+    out = []
+    for t in (0, RSMALL_MS, LARGE_MS):
+        for hold in (0, RHOLD_MS):
+            out.append(gen_rsrv(rng, timeout=t, hold=hold))
+    out.append({"kind": "rsrv", "timeout_ms": RSMALL_MS, "cpu": 1000, "h": {"t": "ret", "resp": 7, "code": 0}, "hold_ms": RHOLD_MS})
+    for t in (0, RSMALL_MS):        # panic(nil) through the assembled chain, without and with the timeout interceptor
+        out.append({"kind": "rsrv", "timeout_ms": t, "cpu": 0, "h": {"t": "panic", "pv": "nil"}, "hold_ms": 0})
+    return out
+
+
 def systematic():
     alpha = [{"a": "set", "k": 0, "v": 1}, {"a": "wh", "c": 201}, {"a": "wh", "c": 600}, {"a": "w", "b": "a"}, {"a": "panic"}]
     out = []
@@ -442,6 +538,14 @@ def generate(rng, tier, n):
         else:
             cases.append(gen_rmulti(rng))
     cases += value_matrix(e2e=tier in ("thorough", "search"))
+    cases += config_matrix(rng) + rsrv_matrix(rng)
+    extra = 60 if tier == "thorough" else 8
+    cases += [gen_e2ec(rng) for _ in range(extra)] + [gen_rsrv(rng) for _ in range(2 * extra)]
+    if os.environ.get("C02_SKIP_BREAKER_FINDING") == "1":     # self-test aid only: leave the open finding's inputs out
+        cases = [c for c in cases if classify(c, {}) is None]
+    if tier == "thorough":
+        cases += [gen_e2ec(rng, g=LARGE_MS, r=0, verbose=v, body=("many", 210000), hold=0) for v in (False, True)]
+    rng.shuffle(cases)      # spread the expensive cases over the evaluation shards
     if tier == "thorough":
         cases += systematic()
         cases += [gen_e2e(rng) for _ in range(120)]
@@ -500,7 +604,8 @@ def search(rng, problems):
 def drive(cases, tier):
     rest = [c for c in cases if c.get("kind") in ("tw", "conns", "multi")]
     rpc = [c for c in cases if c.get("kind") in ("rpc", "rmulti")]
-    e2e = [c for c in cases if c.get("kind") in ("e2e", "e2em")]
+    e2e = [c for c in cases if c.get("kind") in ("e2e", "e2em", "e2ec")]
+    rsrv = [c for c in cases if c.get("kind") == "rsrv"]
     log = ""
     tag = {"quick": "", "thorough": "t", "search": "s"}.get(tier, tier[:1])
     obs_rest, l1 = vlib.run_driver(GO_PKG, rest, name="C02" + tag, timeout=DRIVER_TIMEOUT, run=REST_RUN) if rest else ([], "")
@@ -526,8 +631,12 @@ def drive(cases, tier):
     log += l4 or ""
     if obs_e2e is None:
         return None, log
-    it_rpc, it_e2e, it_rest = iter(obs_rpc), iter(obs_e2e), iter(obs_rest)
-    its = {"rpc": it_rpc, "rmulti": it_rpc, "e2e": it_e2e, "e2em": it_e2e}
+    obs_rsrv, l5 = vlib.run_driver(RSRV_PKG, rsrv, name="C02" + tag + "v", timeout=DRIVER_TIMEOUT, run=REST_RUN) if rsrv else ([], "")
+    log += l5 or ""
+    if obs_rsrv is None:
+        return None, log
+    it_rpc, it_e2e, it_rest, it_rsrv = iter(obs_rpc), iter(obs_e2e), iter(obs_rest), iter(obs_rsrv)
+    its = {"rpc": it_rpc, "rmulti": it_rpc, "e2e": it_e2e, "e2em": it_e2e, "e2ec": it_e2e, "rsrv": it_rsrv}
     return [next(its[c["kind"]]) if c.get("kind") in its else next(it_rest) for c in cases], log
 
 
@@ -551,6 +660,8 @@ def c_action(a):
     if k == "wh":
         return "WriteHeader %s" % cZ(a["c"])
     if k == "w":
+        if a.get("rep"):
+            return "Write (repeat %s %s)" % (cnat(a["rep"]["b"]), cnat(a["rep"]["n"]))
         return "Write %s" % c_lnat(list(a["b"].encode()))
     return "PanicA %s" % PV_COQ.get(a.get("pv") or "string", "PVString")
 
@@ -583,6 +694,26 @@ def c_event(e):
 
 def encode(case, obs):
     kind = case.get("kind")
+    if kind == "e2ec":
+        if obs.get("gave_up"):
+            return "CaseM (mkmc true [] [])"      # the scheduler never delivered this schedule: nothing to compare
+        r = obs.get("resp")
+        answered = r is not None
+        r = r or {}
+        body = "(unrle %s)" % clist([cpair(cnat(b), cnat(n)) for b, n in r.get("rle") or []])
+        return "CaseE (mkec %s %s %s %s %s %s (mkresp %s %s %s) %s %s %s)" % (
+            cZ(case["gtimeout_ms"]), cZ(case["rtimeout_ms"]), cbool(case["verbose"]), cZ(case["hold_ms"]), cnat(case["k"]),
+            clist([c_action(a) for a in case["acts"]]), cZ(r.get("status", 0)), c_hdrs(r.get("h")), body,
+            clist([c_outcome(t) for t in obs.get("trace") or []]), cbool(answered), cbool(obs.get("prompt", False)))
+    if kind == "rsrv":
+        if obs.get("panicked"):
+            res = "RPropagatedPanic"
+        else:
+            rv, code = obs.get("resp"), obs.get("code", 4999)
+            res = "(RResult %s %s)" % (copt(None if rv is None else cnat(rv if rv >= 0 else 4999)), cnat(code if code >= 0 else 4999))
+        bad = obs.get("hung", False) or "error" in obs or "driver_panic" in obs or not obs.get("entered", False)
+        return "CaseS (mksc %s %s %s %s %s %s)" % (cZ(case["timeout_ms"]), cZ(case["hold_ms"]), c_hres(case["h"]), res,
+                                                  cbool(bad), cbool(obs.get("prompt", False)))
     if kind in ("multi", "e2em"):
         ops = clist(["%s %s" % ({"start": "MOStart", "step": "MOStep", "fire": "MOFire"}[o["op"]], cnat(o["r"])) for o in case["mops"]])
         robs = obs.get("reqs")
@@ -679,8 +810,21 @@ def _has_panic(case):
     return any(a["a"] == "panic" or (a["a"] == "wh" and not 100 <= a["c"] <= 599) for a in case["acts"])
 
 
+def classify(case, obs):
+    """breaker-swallows-nil-panic: googleBreaker.doReq still tests `recover() != nil`; without the timeout interceptor in
+    between (ServerConfig.Timeout = 0) a handler's panic(nil) is swallowed by the breaker interceptor inside Crash and the
+    started server answers OK with an empty message instead of Internal."""
+    if case.get("kind") == "rsrv" and case["timeout_ms"] <= 0 and case["h"]["t"] == "panic" and case["h"].get("pv") == "nil":
+        return "breaker-swallows-nil-panic"
+    return None
+
+
 def nontrivial(case, obs):
     k = case.get("kind")
+    if k == "e2ec":
+        return bool(case["hold_ms"]) or sum((a.get("rep") or {}).get("n", 0) for a in case["acts"]) > 32768
+    if k == "rsrv":
+        return bool(case["hold_ms"]) or case["h"]["t"] == "panic"
     if k in ("multi", "rmulti", "e2em"):
         return (obs.get("max_inside") or 0) >= 2
     if k == "e2e":
@@ -695,7 +839,21 @@ def nontrivial(case, obs):
 def bucket(case, obs):
     k = case.get("kind")
     out = ["kind:" + k]
-    if k in ("multi", "rmulti", "e2em"):
+    if k == "e2ec":
+        eff = case["rtimeout_ms"] or case["gtimeout_ms"]
+        out.append("e2ec.global=%d/route=%d" % (case["gtimeout_ms"], case["rtimeout_ms"]))
+        out.append("e2ec.%s" % ("overrun" if case["hold_ms"] and 0 < eff < case["hold_ms"] else ("held-no-deadline" if case["hold_ms"] else "instant")))
+        out.append("e2ec.verbose=%s" % case["verbose"])
+        out.append("e2ec.body=%s" % (obs.get("resp") or {}).get("len"))
+        out.append("e2ec.status=%s" % (obs.get("resp") or {}).get("status"))
+        if obs.get("retries"):
+            out.append("e2ec.retried")
+    elif k == "rsrv":
+        out.append("rsrv.timeout=%d/hold=%d" % (case["timeout_ms"], case["hold_ms"]))
+        out.append("rsrv.code=%s" % obs.get("code"))
+        if case["cpu"]:
+            out.append("rsrv.shedding-installed")
+    elif k in ("multi", "rmulti", "e2em"):
         out.append("%s.max-inside=%s" % (k, obs.get("max_inside")))
         out.append("%s.requests=%d" % (k, len(case.get("mreqs") or case.get("calls"))))
         if any(o["op"] == "fire" for o in case["mops"]):
@@ -753,6 +911,16 @@ def bucket(case, obs):
 
 def explain(case, obs):
     k = case.get("kind")
+    if k == "e2ec":
+        return ("engine-built chain (C02.Exec.spec_ok_e): with server-wide timeout gtimeout_ms and route timeout rtimeout_ms the "
+                "deadline that applies is the route's if present, else the server's (c02_effective_deadline); a handler parked "
+                "beyond it must be answered 503 + 'Request Timeout' while still parked and none of its bytes/headers may arrive; "
+                "otherwise the client must receive exactly the handler's status, headers and body, byte for byte whatever the "
+                "size and whichever log handler is installed (c02_log_wrappers_transparent)")
+    if k == "rsrv":
+        return ("real started rpc server (C02.Exec.spec_ok_s): with ServerConfig.Timeout > 0 a handler that ignores its context "
+                "and overruns the timeout must yield (nil, DeadlineExceeded) at the deadline, i.e. while it is still parked; "
+                "otherwise the handler's own result; Internal on panic")
     if k in ("tw", "e2e"):
         return ("observed response contradicts C02.Exec.spec_ok_t: under the forced schedule (fire) the client must see exactly "
                 "the handler's buffered response (Spec.handler_response: status/headers/body, 500 on an uncommitted panic) or "
